@@ -417,7 +417,8 @@ _qelem = st.sampled_from(['a', 'b', 'Z', ' ', '<', '>', '@', ',', ';', ':', '.',
 _quoted_built = st.lists(_qelem, min_size=1, max_size=5).map(lambda l: '"' + ''.join(l) + '"')
 _quoted_fixed = st.sampled_from(['"a b"', '"a@b"', '"<x>"', '"q\\"uote"', '"back\\\\slash"', '"v550 quoted"', '"q\\"<>"', '">"', '" "'])
 _quoted = st.one_of(_quoted_fixed, _quoted_built, _quoted_built)
-_utf8 = st.sampled_from(['üser', 'дмитрий', '用户', '"ü b"'])
+# (the last three are not in Unicode normal form C: a combining accent, the Angstrom sign, a compatibility ideograph)
+_utf8 = st.sampled_from(['üser', 'дмитрий', '用户', '"ü b"', 'cafe\u0301', '\u212bngstrom', 'x\uf900y'])
 _doms = st.sampled_from(['example.com', 'sub.example.org', 'EXAMPLE.net', 'xn--bcher-kva.example', '[192.0.2.1]'])
 _udoms = st.sampled_from(['bücher.example', 'пример.рф'])
 
